@@ -401,4 +401,38 @@ theorem beat_keeps_persistence (s : Svc) (inst old : Inst) (t : Tag) (ht : t.isN
 example : ({ weight := false, metadata := false, enabled := false, ephemeral := false, fromUpdate := false } : Tag).isNone = true := by
   decide
 
+/-! ## the host probe of persistent instances -/
+
+/-- what a failed host probe leaves at the address: the same instance, reported unhealthy -/
+theorem probe_failed_instance (s : Svc) (key : ShortKey) (i : Inst) (hg : AL.get? s.insts key = some i) :
+    AL.get? (s.markUnhealthy key).insts key = some { i with healthy := false } := by
+  unfold Svc.markUnhealthy
+  rw [hg]
+  simp only
+  split
+  · exact AL.get?_set_same _ _ _
+  · rename_i hh
+    rw [hg]
+    have : i.healthy = false := by simpa using hh
+    cases i; simp_all
+
+/-- **a failed host probe does not hand a persistent (or gRPC-connected, or replicated) instance to the heartbeat
+clock**: the probe (`update_perpetual_health`, the health check of persistent instances) marks it unhealthy and queues
+its address in the removal set; however old its last modification is, no later time check removes it -/
+theorem probed_persistent_never_expires (s : Svc) (ht ot now : Int) (key : ShortKey) (i : Inst)
+    (hg : AL.get? s.insts key = some i) (hn : i.ephemeral = false ∨ i.fromGrpc = true ∨ i.fromCluster > 0) :
+    AL.get? ((s.markUnhealthy key).timeCheck ht ot now).1.insts key = some { i with healthy := false } ∧
+    (i.lastModified, key) ∈ (s.markUnhealthy key).unhealthyTO :=
+  ⟨persistent_grpc_never_expire _ ht ot now key _ (probe_failed_instance s key i hg) hn, markUnhealthy_arms s key i hg⟩
+
+/-- a successful probe brings a persistent instance back to healthy and touches nothing else at the address -/
+theorem probe_ok_instance (s : Svc) (key : ShortKey) (i : Inst) (hg : AL.get? s.insts key = some i) :
+    AL.get? (s.probeValid key).insts key = some (if !i.healthy && !i.ephemeral then { i with healthy := true } else i) := by
+  unfold Svc.probeValid
+  rw [hg]
+  simp only
+  split
+  · exact AL.get?_set_same _ _ _
+  · exact hg
+
 end RNacos.Props.C13
